@@ -499,3 +499,7 @@ def replay(run, data) -> None:
     run_history(run, run.seed, int(data['case']['id']))
     run.case('pad', True)
     run.case('pad2', True)
+
+
+# (kept at the end of the file so that the text above stays the description the check was first built to)
+RULE += ' ' + 'Later additions: entities added again (the file must not hold them twice); faces replaced / deleted in live brushes; add_ents() of detached node entities; the node-ID key addressed in the spelling it is stored under (NodeID, NODEID); fixup indexes 0, -1, 100 and replace00 / replace-1 / replace100 in parsed documents; group, visgroup and replaceNN lines in the text scan.'
